@@ -113,13 +113,6 @@ func init() {
 			{ID: "C09-G3-insert-after-test", File: "core/sigagg/sigagg.go", Expect: "G3",
 				Old: "\t// Aggregate signatures\n", New: "\tblsSigs[parSigs[0].ShareIdx+1] = blsSigs[parSigs[0].ShareIdx]\n\n\t// Aggregate signatures\n"},
 			// G4
-			// G3 every partial of the entry enters the interpolation (round 5)
-			{ID: "C09-G3-stop-at-threshold-after-insert", File: "core/sigagg/sigagg.go", Expect: "G3|holds every partial",
-				Old: "\t\tblsSigs[parSig.ShareIdx] = sig\n", New: "\t\tblsSigs[parSig.ShareIdx] = sig\n\n\t\tif len(blsSigs) >= a.threshold {\n\t\t\tbreak\n\t\t}\n"},
-			{ID: "C09-G3-skip-known-share", File: "core/sigagg/sigagg.go", Expect: "G3|holds every partial",
-				Old: "\t\tsig, err := tblsconv.SigFromCore(parSig.Signature())\n", New: "\t\tif _, dup := blsSigs[parSig.ShareIdx]; dup {\n\t\t\tcontinue\n\t\t}\n\n\t\tsig, err := tblsconv.SigFromCore(parSig.Signature())\n"},
-			{ID: "C09-G3-leave-loop-when-enough", File: "core/sigagg/sigagg.go", Expect: "G3|holds every partial",
-				Old: "\t\tsig, err := tblsconv.SigFromCore(parSig.Signature())\n", New: "\t\tif len(blsSigs) > a.threshold-1 {\n\t\t\tbreak\n\t\t}\n\n\t\tsig, err := tblsconv.SigFromCore(parSig.Signature())\n"},
 			{ID: "C09-G4-verifier-returns-stub", File: "core/sigagg/sigagg.go", Expect: "G4",
 				Old:  "\treturn func(ctx context.Context, pubkey core.PubKey, data core.SignedData) error {\n",
 				New:  "\tverify := func(ctx context.Context, pubkey core.PubKey, data core.SignedData) error {\n",
